@@ -20,7 +20,7 @@ from .. import runobs as R
 PROP = "C20"
 CLAUSES = {"NameGrammar", "IdentifierGrammar", "IdentifierGrammarNoPrefix", "RelativeGrammar", "CanonicalRoundTrip",
            "DistinctOutputDirs", "OnlyNeeded", "EnvCwd", "EnvDeps", "StartAfterDepsExit0"}
-ALPHA = ["a", "Z", "0", "-", "_", "/", ":", ".", "\n", " ", "\t", "*"]
+ALPHA = ["a", "Z", "0", "-", "_", "/", ":", ".", "\n", " ", "\t", "*", "\u212a"]
 CODE = {c: i + 1 for i, c in enumerate(ALPHA)}
 
 
@@ -72,6 +72,56 @@ def scan_worker(job):
                 parsed.append([enc(s), [enc(p) for p in ok_np.path.parts], enc(ok_np.name) if all(
                     c in CODE for c in ok_np.name) else [12], enc(printed) if all(c in CODE for c in printed) else [12], same])
     return {"count": count, "names": names, "abs": ab, "absnp": abnp, "rel": rel, "parsed": parsed}
+
+
+SEGMENTS = {"a": "COND", "Z": "cond-out", "0": "x"}
+
+
+def special_rows():
+    """Identifiers whose path segments / names are words Conductor itself uses (COND, cond-out), built from abstract strings
+    over {a, Z, 0, /, :} with a -> "COND", Z -> "cond-out", 0 -> "x": the real parser's answer is decoded back to the abstract
+    alphabet, so the specification's Parse / PrintId judge it like any other identifier."""
+    import re
+    from conductor.task_identifier import TaskIdentifier
+    from conductor.errors import ConductorError
+    tok = re.compile("|".join(sorted((re.escape(v) for v in SEGMENTS.values()), key=len, reverse=True)))
+    inv = {v: k for k, v in SEGMENTS.items()}
+
+    def conc(abs_s):
+        return "".join(SEGMENTS.get(c, c) for c in abs_s)
+
+    def dec(real):
+        out, pos = [], 0
+        while pos < len(real):
+            m = tok.match(real, pos)
+            if m:
+                out.append(inv[m.group(0)])
+                pos = m.end()
+            else:
+                out.append(real[pos] if real[pos] in CODE else "*")
+                pos += 1
+        return "".join(out)
+    rows = []
+    segs = ["a", "Z", "0", "aa", "a0"]
+    for depth in range(0, 4):
+        for path in itertools.product(segs, repeat=depth):
+            for name in ["a", "0", "Z"]:
+                for trailing in ("", "/"):
+                    if depth == 0 and trailing:
+                        continue
+                    abs_s = "//" + "/".join(path) + trailing + ":" + name
+                    try:
+                        ident = TaskIdentifier.from_str(conc(abs_s), require_prefix=False)
+                    except ConductorError:
+                        continue
+                    printed = str(ident)
+                    try:
+                        again = TaskIdentifier.from_str(printed)
+                        same = again == ident and str(again) == printed
+                    except ConductorError:
+                        same = False
+                    rows.append([enc(abs_s), [enc(dec(p)) for p in ident.path.parts], enc(dec(ident.name)), enc(dec(printed)), same])
+    return rows
 
 
 def outdir_table():
@@ -126,6 +176,12 @@ def main(tier):
         for k in ("names", "abs", "absnp", "rel", "parsed"):
             obs[k] += p[k]
     obs["outdirs"] = C.fork_map(lambda _: outdir_table(), [0])[0]
+    special = C.fork_map(lambda _: special_rows(), [0])[0]
+    if not isinstance(special, list):
+        rep.machinery("special identifiers failed: %s" % str(special)[:400])
+        return rep.finish()
+    obs["parsed"] += special
+    rep.cov["identifiers_with_reserved_words"] = len(special)
     with C.Scratch("c20") as d:
         fpath = os.path.join(d, "obs.json")
         with open(fpath, "w") as f:
